@@ -32,6 +32,11 @@ def prepare_examples(wdir):
 def resolve(m):
     kind, rel = m.split(":", 1)
     if kind == "ex": return os.path.join(EXDIR, rel)
+    if kind == "gen":
+        path = os.path.join(EXDIR, rel + ".asn1")
+        if not os.path.exists(path):
+            open(path, "w").write(subprocess.check_output([sys.executable, os.path.join(VERIF, "tools", "gen_module.py"), rel[3:], rel], text=True))
+        return path
     return os.path.join(build.REPO if kind == "repo" else VERIF, rel)
 
 
@@ -40,7 +45,12 @@ def module_sets(tier, seed):
     tests = sorted(glob.glob(os.path.join(build.REPO, "tests/tests-asn1c-compiler/*-OK.asn1")))
     tests = ["repo:" + os.path.relpath(t, build.REPO) for t in tests]
     sets = []
-    for m in ("Sim1", "Sim2", "Sim3", "Sim4"): sets.append(["verif:corpus/%s.asn1" % m])
+    for m in ("Sim1", "Sim2", "Sim3", "Sim4", "Sim5"): sets.append(["verif:corpus/%s.asn1" % m])
+    # seeded generated modules (tools/gen_module.py): the same-code clause of the property quantifies over these
+    for k in range(6 if tier == "quick" else 40):
+        g = "gen:Gen%d" % ((seed % 4096) * 64 + k + 1)
+        resolve(g)                       # written once here, before the cases run in parallel
+        sets.append([g])
     sets.append(["verif:corpus/ImpA.asn1", "verif:corpus/ImpB.asn1"])
     sets.append(["verif:corpus/ParA.asn1", "verif:corpus/ParB.asn1"])       # parameterized types in the second file
     sets.append(["verif:corpus/CoA.asn1", "verif:corpus/CoB.asn1"])         # COMPONENTS OF, values and defaults across modules
@@ -222,7 +232,7 @@ def main(a):
                 perms = [tuple(range(len(ms)))] + [p for p in perms if p != tuple(range(len(ms)))][:nperm - 1]
                 cases.append(dict(kind="permdiff", modules=ms, flags=flags, envseeds=[rnd.randrange(1, 1 << 30)], perms=perms))
             if len(ms) == 1 and os.path.basename(ms[0]) not in OLD_SYNTAX:
-                generated = ms[0].startswith("verif:")
+                generated = ms[0].startswith("verif:") or ms[0].startswith("gen:")
                 cases.append(dict(kind="samecode" if generated else "fixpoint", modules=ms, flags=flags))
         counters = {"runs": 0, "cases": len(cases)}
         kinds = {}
